@@ -172,3 +172,148 @@ def none_test(e):
         if isinstance(e.ops[0], (ast.IsNot, ast.NotEq)):
             return 'not_none', norm(e.left)
     return None
+
+
+# ---------------------------------------------------------------------------------------------------------------
+# extract-method invariance for path rules: a *view* of a function in which calls of private helpers that are
+# used as statements (`_helper(a, b)` / `self._helper(a)`, no value returned) are replaced by the helper's body.
+def inlined_view(prog, fn, depth=2):
+    """Copy of `fn` (FunctionInfo) whose body has the void private helpers it calls as statements spliced in:
+    parameters are replaced by the argument expressions, the helper's own locals get a prefix, early `return`s become
+    if/else nesting.  Rules that reason over paths of one function (CFG reachability, data-flow origins) use the
+    view, so that moving a block of statements into a helper does not change what they see.  Helpers that return a
+    value, yield, or are called inside expressions are left as calls."""
+    import copy
+    unit = {f.name: f for f in unit_functions(prog, fn, depth=depth)[1:]}
+    if not unit:
+        return fn
+
+    def void(h):
+        for x in walk_fn(h):
+            if isinstance(x, ast.Return) and x.value is not None and not (
+                    isinstance(x.value, ast.Constant) and x.value.value is None):
+                return False
+            if isinstance(x, (ast.Yield, ast.YieldFrom)):
+                return False
+        return not isinstance(h.node, ast.Lambda) and not h.node.args.vararg and not h.node.args.kwarg
+
+    def elim(stmts):
+        out = []
+        for i, st in enumerate(stmts):
+            if isinstance(st, ast.Return):
+                return out
+            if isinstance(st, ast.If) and not st.orelse and st.body and isinstance(st.body[-1], ast.Return):
+                rest = elim(stmts[i + 1:])
+                body = elim(st.body)
+                new = ast.If(test=st.test, body=body or [ast.Pass()], orelse=rest)
+                out.append(ast.copy_location(new, st))
+                return out
+            if any(isinstance(x, ast.Return) for x in ast.walk(st)):
+                return None     # a return nested deeper: not handled
+            out.append(st)
+        return out
+
+    changed = [False]
+
+    def splice(stmts, level):
+        res = []
+        for st in stmts:
+            for f in ('body', 'orelse', 'finalbody'):
+                b = getattr(st, f, None)
+                if isinstance(b, list) and b and isinstance(b[0], ast.stmt) and \
+                        not isinstance(st, (ast.FunctionDef, ast.AsyncFunctionDef, ast.ClassDef)):
+                    setattr(st, f, splice(b, level))
+            for hd in getattr(st, 'handlers', []):
+                hd.body = splice(hd.body, level)
+            c = st.value if isinstance(st, ast.Expr) and isinstance(st.value, ast.Call) else None
+            h = None
+            if c is not None and not c.keywords and all(isinstance(a, (ast.Name, ast.Attribute, ast.Constant))
+                                                         for a in c.args):
+                if isinstance(c.func, ast.Name):
+                    h = unit.get(c.func.id)
+                elif isinstance(c.func, ast.Attribute) and isinstance(c.func.value, ast.Name) and \
+                        c.func.value.id in ('self', 'cls'):
+                    h = unit.get(c.func.attr)
+            if h is None or h.name in fn.nested or not void(h) or level <= 0:
+                res.append(st)
+                continue
+            params = list(h.params)
+            if params and params[0] in ('self', 'cls') and isinstance(c.func, ast.Attribute):
+                params = params[1:]
+            if len(params) != len(c.args):
+                res.append(st)
+                continue
+            sub = dict(zip(params, c.args))
+            locs = {t.id for x in walk_fn(h) for t in ast.walk(x) if isinstance(t, ast.Name) and
+                    isinstance(t.ctx, ast.Store)} - set(sub)
+
+            class S(ast.NodeTransformer):
+                def visit_Name(self, node):
+                    if node.id in sub and isinstance(node.ctx, ast.Load):
+                        return copy.deepcopy(sub[node.id])
+                    if node.id in locs:
+                        return ast.copy_location(ast.Name(id=f'_{h.name}__{node.id}', ctx=node.ctx), node)
+                    return node
+            if any(isinstance(t, ast.Name) and isinstance(t.ctx, ast.Store) and t.id in sub
+                   for x in walk_fn(h) for t in ast.walk(x)):
+                res.append(st)      # the helper assigns a parameter: keep the call
+                continue
+            body = [s_ for s_ in copy.deepcopy(h.node.body)
+                    if not (isinstance(s_, ast.Expr) and isinstance(s_.value, ast.Constant))]
+            body = elim(body)
+            if body is None:
+                res.append(st)
+                continue
+            body = [S().visit(s_) for s_ in body]
+            for s_ in body:
+                for x in ast.walk(s_):
+                    if hasattr(x, 'lineno'):
+                        x.lineno = st.lineno
+                        x.end_lineno = getattr(st, 'end_lineno', st.lineno)
+            changed[0] = True
+            res += splice(body, level - 1) or [ast.copy_location(ast.Pass(), st)]
+        return res
+
+    node = copy.deepcopy(fn.node)
+    node.body = splice(node.body, depth)
+    if not changed[0]:
+        return fn
+    ast.fix_missing_locations(node)
+    view = copy.copy(fn)
+    view.node = node
+    return view
+
+
+def expand_locals(fn, e, depth=3):
+    """Copy of expression e in which local names that are assigned exactly once in fn (plain or element-wise tuple
+    assignment) are replaced by their defining expression - hoisted sub-expressions are read through."""
+    import copy
+    single = {}
+    for a in walk_fn(fn):
+        if isinstance(a, ast.Assign) and len(a.targets) == 1:
+            t = a.targets[0]
+            if isinstance(t, ast.Name):
+                single.setdefault(t.id, []).append(a.value)
+            elif isinstance(t, ast.Tuple) and isinstance(a.value, ast.Tuple) and len(t.elts) == len(a.value.elts):
+                for el, v in zip(t.elts, a.value.elts):
+                    if isinstance(el, ast.Name):
+                        single.setdefault(el.id, []).append(v)
+            elif isinstance(t, ast.Tuple):
+                for el in t.elts:
+                    if isinstance(el, ast.Name):
+                        single.setdefault(el.id, []).extend([None, None])
+        elif isinstance(a, (ast.AugAssign, ast.For, ast.With, ast.NamedExpr)):
+            tg = a.target if hasattr(a, 'target') else None
+            for x in ast.walk(tg) if tg is not None else []:
+                if isinstance(x, ast.Name):
+                    single.setdefault(x.id, []).extend([None, None])
+    single = {k: v[0] for k, v in single.items() if len(v) == 1 and v[0] is not None}
+
+    def ex(node, d):
+        class S(ast.NodeTransformer):
+            def visit_Name(self, n):
+                if isinstance(n.ctx, ast.Load) and n.id in single and d > 0:
+                    return ex(single[n.id], d - 1)
+                return n
+        return S().visit(copy.deepcopy(node))
+    return ex(e, depth)
